@@ -36,6 +36,10 @@ type c20Client struct {
 	// AuthMethod (v5): every CONNECT carries an Authentication Method (accepted by an OnEnhancedAuth hook), so that
 	// the client may re-authenticate: AUTH (0x19) sent, AUTH (0x00) received - both belong to the packet statistics
 	AuthMethod bool `json:"auth_method,omitempty"`
+	// AuthRound (with AuthMethod): the hook answers the CONNECT with "continue": the broker sends AUTH (0x18) before any
+	// CONNACK, the client answers AUTH (0x18) after a short pause, then the CONNACK follows - packets are exchanged
+	// (and must be counted for this client) before the client id has been accepted
+	AuthRound bool `json:"auth_round,omitempty"`
 }
 
 type c20Op struct {
@@ -76,6 +80,7 @@ func genC20(t *rapid.T) c20Scen {
 		}
 		if c.V == 5 && rapid.IntRange(0, 2).Draw(t, "authmethod") == 0 {
 			c.AuthMethod = true
+			c.AuthRound = rapid.Bool().Draw(t, "auth_round")
 		}
 		if c.V == 5 && c.Persistent && rapid.IntRange(0, 3).Draw(t, "short") == 0 {
 			c.ShortExpiry = true
@@ -271,6 +276,11 @@ func runC20(s c20Scen, c *ev.Case) *ev.Violation {
 	lateSeen := func() bool { mu.Lock(); defer mu.Unlock(); return lateAck }
 	hooks := &server.Hooks{
 		OnEnhancedAuth: func(ctx context.Context, cl server.Client, req *server.ConnectRequest) (*server.EnhancedAuthResponse, error) {
+			if req.Connect.Properties != nil && string(req.Connect.Properties.AuthData) == "round" {
+				return &server.EnhancedAuthResponse{Continue: true, AuthData: []byte("challenge"), OnAuth: func(ctx context.Context, cl server.Client, ar *server.AuthRequest) (*server.AuthResponse, error) {
+					return &server.AuthResponse{}, nil
+				}}, nil
+			}
 			return &server.EnhancedAuthResponse{}, nil
 		},
 		OnReAuth: func(ctx context.Context, cl server.Client, auth *packets.Auth) (*server.AuthResponse, error) {
@@ -421,10 +431,24 @@ func runC20(s c20Scen, c *ev.Case) *ev.Violation {
 			}
 			if cs.AuthMethod {
 				p.Props.AuthMethod = strp("m")
+				if cs.AuthRound {
+					p.Props.AuthData, p.Props.HasAuthData = []byte("round"), true
+				}
 			}
 		}
 		if err := cl.Send(p); err != nil {
 			return harnessErr("send connect: %v", err)
+		}
+		if cs.V == 5 && cs.AuthMethod && cs.AuthRound {
+			ch, err := cl.WaitType(mw.AUTH, fixture.DefaultWait)
+			if err != nil || ch.ReasonCode != 0x18 {
+				return ev.Violf("C20.connect", "client %d: the hook asked to continue the authentication, no AUTH (0x18) arrived: %v %v", i, ch, err)
+			}
+			time.Sleep(20 * time.Millisecond)
+			if err := cl.Send(&mw.Packet{Type: mw.AUTH, ReasonCode: 0x18, Props: &mw.Props{AuthMethod: strp("m"), AuthData: []byte("answer"), HasAuthData: true}}); err != nil {
+				return harnessErr("send auth: %v", err)
+			}
+			c.Label("auth_round_before_connack")
 		}
 		ack, err := cl.WaitType(mw.CONNACK, fixture.DefaultWait)
 		if err != nil || ack.ReasonCode != 0 {
